@@ -173,6 +173,29 @@ def task_quoters(name, spname, part, nparts):
     return acc.result()
 
 
+LONG_ROUTES = ["ctor_query", "ctor_path_auth", "ctor_fragment", "ctor_user", "with_query_str", "with_query_dictval", "extend_query_list",
+               "build_query_string", "build_fragment", "with_fragment", "truediv", "with_user", "with_path_auth", "join_ref0"]
+LONG_TAILS = [" b", " ", "é", '"', "%41 ", "\x7f", "\ud800", "%", "+ "]
+
+
+def task_long(rname):
+    """Words whose canonical form crosses the compiled writer's 8 KiB boundaries at every offset -2..+2."""
+    acc = Acc(ID, impl.backend)
+    n = 0
+    for m in (1, 2):
+        for d in (-2, -1, 0, 1, 2):
+            for tail in LONG_TAILS:
+                for pad in ("a", "é" if d == 0 else None):
+                    if pad is None:
+                        continue
+                    reps = (8192 * m + d) if pad == "a" else (8192 * m) // 6
+                    s = case_route(acc, rname, pad * reps + tail)
+                    n += 1
+    acc.state_count = n
+    acc.sample({"route": rname, "long_word": "'a' * (8192*m + d) + tail, m in 1..2, d in -2..2, tails %r" % (LONG_TAILS,)}, 1)
+    return acc.result()
+
+
 def plan(ctx):
     from vlib import routes as routes_meta
     quick = ctx.tier == "quick"
@@ -186,6 +209,12 @@ def plan(ctx):
             for sp, n in route_spaces:
                 for part in range(n):
                     tasks.append((M, "task_routes", (rname, sp, part, n), b, "r"))
+        for rname in routes_meta.NAMES_SUB:
+            for sp, n in (("F1", 1), ("X2", 2)):
+                for part in range(n):
+                    tasks.append((M, "task_routes", (rname, sp, part, n), b, "rs"))
+        for rname in LONG_ROUTES:
+            tasks.append((M, "task_long", (rname,), b, "l"))
         for name in q:
             for sp, n in quoter_spaces:
                 for part in range(n):
